@@ -224,3 +224,18 @@ PROPS["C01"] = {
     "floors": [("histories", "call/repl", 300), ("histories", "call/ret", 200), ("histories", "call/after-gc", 50),
                ("histories", "call/after-stack-growth", 100), ("histories", "abi/int-overflow", 20), ("histories", "abi/float-overflow", 20)],
 }
+
+PROPS["C08"] = {
+    "prepare": [prep_corpus],
+    "units": [
+        {"name": "histories", "pkg": "./zverif/c08", "run": "^TestVerifC08$", "timeout": {"quick": 300, "thorough": 1800},
+         "shards": {"quick": 1, "thorough": 16}},
+    ],
+    "rule": "rapid histories of 1..14 operations (Set, Apply, Cancel, double Cancel, Reset, second Reset, fresh builder) over two of 29 package variables of "
+            "every kind (scalars, strings, slices, maps, structs, arrays, pointers, funcs, interfaces incl. nil originals, chan; exported and unexported; "
+            "addressed by pointer or by 'package.name'). Oracle after every step: the variable read directly and through a non-inlined accessor holds "
+            "the mocked value, after Cancel/Reset bit-exactly the value it had before its first mock in that builder (identity for reference kinds); "
+            "no panic. Non-trivial: a restore after >=2 Sets, a Cancel without Set, or a double restore; distinct by the operation-kind sequence.",
+    "assumptions": ["Apply on an unexported-variable mocker and Set(nil) for interface-typed variables are not generated/judged (DESIGN 5.3)"],
+    "floors": [("histories", "restore-after->=2-sets", 100), ("histories", "cancel-without-set", 50), ("histories", "by-name", 100)],
+}
